@@ -10,7 +10,7 @@ T = {
          'Programs are enumerated (corpus + generator), not symbolic; inputs, lengths and all data are symbolic up to K. Trusted: refsem oracle (validated on the repo\'s annotated examples every run), absm, z3.', '§4 C01'),
  'C02': ('model_checking', 'LLVM-IR symbolic execution of emitted <p>_feed over all chunk compositions from an arbitrary invariant pre-state; z3 equality queries',
          'From every control state with arbitrary data within the representation invariant, all compositions of a symbolic chunk of L bytes give the same struct, events, codes and offsets as the single call (solver-decided for all bytes/data).',
-         'Programs x configs enumerated; chunk <= L bytes; longer chunks follow by the induction argument of DESIGN §4 C02 (not a solver claim). malloc never fails; hooks are pure observers.', '§4 C02'),
+         'Programs (corpus + seeded generated family engines/gen_l3) x configs enumerated; chunk <= L bytes; longer chunks follow by the induction argument of DESIGN §4 C02 (not a solver claim). malloc never fails; hooks are pure observers.', '§4 C02'),
  'C03': ('model_checking', 'LLVM-IR symbolic execution with memory-safety proof obligations (in-bounds, live, writable, no UB) + representation-invariant induction; CrossHair on size/type kernels',
          'From every control state and arbitrary invariant data, one feed of 1-2 symbolic bytes / one end / free generates only dischargeable safety obligations and re-establishes the invariant; start() establishes it.',
          'Programs x storage configs enumerated. Stubs: malloc returns fresh live object, never NULL; hooks do not touch the struct. Sub-object bounds as in DESIGN §2/E3.', '§4 C03'),
@@ -22,7 +22,7 @@ T = {
          'Programs x optimisation-flag subsets x thresholds enumerated; on a step difference a bounded run from start() decides (only replayed differences are violations).', '§4 C05'),
  'C06': ('translation_validation', 'LLVM-IR symbolic execution of emitted C vs abstract machine over the same DFA object; per-state z3 equivalence queries over symbolic byte and data',
          'For every control-state index, a fully symbolic byte (and End) and all data within Inv, the emitted C takes the same transition with the same effects, consumption and result code as the abstract machine over the DFA it was generated from.',
-         'Programs x codegen configs enumerated; one symbol per query; expressions restricted to C-defined behaviour.', '§4 C06'),
+         'Programs (corpus + seeded generated family engines/gen_l3) x codegen configs enumerated; one symbol per query; expressions restricted to C-defined behaviour.', '§4 C06'),
  'C07': ('model_checking', 'z3-verified bisimulation certificate between the compiled regex machine and a Brzozowski-derivative automaton, byte symbolic; if-converted class algebra as 256-bit vectors',
          'For each regex the solver verifies for every related state pair and EVERY byte/End that acceptance, death and successor agree (language equality, no length bound); class algebra methods proved for all member sets.',
          'Regexes enumerated (all ASTs up to a size bound + generated). Oracle: own derivative automaton (refre).', '§4 C07'),
@@ -68,6 +68,7 @@ NA = {
 }
 
 ENGINES = [
+ {'name': 'gen_l3', 'path': 'engines/gen_l3.py', 'serves_properties': ['C02', 'C03', 'C04', 'C05', 'C06', 'C10', 'C12'], 'kind_free_text': 'seeded feature-directed generator of small nmfu programs (the enumerated program dimension of the L3 checks)'},
  {'name': 'llsym', 'path': 'engines/llsym.py', 'serves_properties': ['C02', 'C03', 'C04', 'C06', 'C10', 'C12', 'C14', 'C17'], 'kind_free_text': 'symbolic executor for LLVM IR of the emitted C (z3)'},
  {'name': 'absm', 'path': 'engines/absm.py', 'serves_properties': ['C01', 'C05', 'C06', 'C13', 'C20', 'C04', 'C10', 'C17'], 'kind_free_text': 'abstract machine over the real DFA objects, symbolic via z3 path enumeration'},
  {'name': 'refre', 'path': 'engines/refre.py', 'serves_properties': ['C07', 'C08', 'C09', 'C16', 'C01'], 'kind_free_text': 'reference regex derivative automata'},
